@@ -130,7 +130,7 @@ def check(run):
                                       "re.match(b'\\\\s*>t(?::\\\\w+)?<', DATA[M.span()[0] - 1::-1])", "re.match(b'(?i)\\\\s+(?:noit|[.])ces', DATA[M.span()[0] - 1::-1])",
                                       "DATA.rfind(b'ersion', max(M.span()[0] - 10, 0), M.span()[0]) >= 0 and re.match(b'[\\\\x00=\\\\s\"]+$', "
                                       "DATA[DATA.rfind(b'ersion', max(M.span()[0] - 10, 0), M.span()[0]) + 6:M.span()[0]])"],
-        "decoders.network.find_urls": ["not is_url(GROUP)"],
+        "decoders.network.find_urls": ["not is_url(GROUP)", "not is_url(url)"],
     }
     for fq, ref in REF.items():
         fi = prog.fn(fq)
